@@ -107,6 +107,7 @@ fn check_results(
         return;
     };
     rep.count(&format!("{what}_keyed_with:{which}"));
+    rep.sample_class(&format!("{what}/{which}/{}", if *hashed { "prfAlreadyHashed" } else { "prf" }), json!({"case": case, "first_result": hex_short(&res.first), "keyed_with": which}));
     if let Some(r2) = &res.second {
         match in2.as_ref().and_then(|i| salt(i, *hashed)) {
             None => rep.violate(&format!("{what}: second PRF result without a (valid) second input"), String::new(), case.clone()),
@@ -171,6 +172,7 @@ fn monitor(rep: &mut Report, history: u64, st: &Step) {
             if let Some(why) = mal {
                 rep.count("malformed_requests");
                 rep.nontrivial(fnv_str(&shape));
+                rep.sample_class(&format!("malformed/{why}"), json!({"case": case, "result": st.outcome.err_text()}));
                 if res.is_ok() {
                     rep.violate(&format!("malformed PRF request accepted at registration ({why})"), String::new(), case.clone());
                 }
@@ -238,6 +240,7 @@ fn monitor(rep: &mut Report, history: u64, st: &Step) {
             if let Some(why) = mal {
                 rep.count("malformed_requests");
                 rep.nontrivial(fnv_str(&shape));
+                rep.sample_class(&format!("malformed/{why}"), json!({"case": case, "result": st.outcome.err_text()}));
                 if res.is_ok() {
                     rep.violate(&format!("malformed PRF request accepted at authentication ({why})"), String::new(), case.clone());
                 }
